@@ -255,6 +255,27 @@ def run(ctx):
             ctx.violation("OCTET STRING reader wrong", {"len": ln}, ro[:60], f"ok … {len(enc)}")
         flush()
 
+    # content lengths around 2^24 (3-octet / 4-octet length form): oracle only in the quick tier (the thorough tier sends them through the model too)
+    for ln in ((1 << 24) - 1, 1 << 24, (1 << 24) + 1):
+        content = bytes([ln % 251]) * ln
+        ctx.count("length:2^24")
+        try:
+            enc = bytes(a._pack_asn1(0, False, 4, content))
+        except Exception as e:  # noqa
+            ctx.violation("TLV writer raises", {"len": ln}, canon_exc(e), "an encoding")
+            continue
+        exp = b"\x04" + der_len(ln) + content
+        if enc != exp:
+            ctx.violation("length octets are not minimal DER", {"len": ln}, hx(enc[:8]), hx(exp[:8]))
+            continue
+        try:
+            got, used = a._read_asn1_octet_string(enc + b"\x07")
+            ro = "ok" if (bytes(got) == content and used == len(enc)) else f"wrong value or {used} octets consumed"
+        except Exception as e:  # noqa
+            ro = "err " + canon_exc(e)
+        if ro != "ok":
+            ctx.violation("OCTET STRING reader wrong", {"len": ln}, ro[:60], f"ok … {len(enc)}")
+
     # --- OIDs -------------------------------------------------------------------------------
     oids = ["1.2.840.113549.1.7.3", "1.3.6.1.4.1.311.74.1", "2.16.840.1.101.3.4.1.45", "0.0", "0.39", "1.0", "2.39", "2.5.4.3",
             "1.2.0.127.128.16383.16384", "2.40", "3.1", "1.40", "1.2." + str(1 << 70)]
